@@ -587,6 +587,256 @@ theorem closed_eval (w : World) (τ : Asg) (e : Expr) :
   | exists_ v e _ => intro hF; simp [Expr.Fc] at hF
   | forAll v e _ => intro hF; simp [Expr.Fc] at hF
 
+/-! ## Q4'. Closed evaluation with literal nodes that may still be unbound -/
+
+/-- `env` binds every variable in `vs` as `τ` does; a literal node in `L` is bound to its literal or not at all -/
+def LClosed (τ : Asg) (env : Env) (vs : List VarId) (L : List (Nat × Val)) : Prop :=
+  (∀ v ∈ vs, ∃ x, env.lookup (.var v) = some x ∧ τ.lookup v = some x) ∧
+  (∀ il ∈ L, env.lookup (.lit il.1) = some il.2 ∨ env.lookup (.lit il.1) = none)
+
+/-- `env'` extends `env` by bindings of literal nodes of `L` to their literals -/
+def LitPre (L : List (Nat × Val)) (env env' : Env) : Prop :=
+  ∃ pre, env' = pre ++ env ∧ ∀ p ∈ pre, ∃ id, p.1 = Key.lit id ∧ (id, p.2) ∈ L
+
+theorem LitPre.refl (L : List (Nat × Val)) (env : Env) : LitPre L env env := ⟨[], rfl, by simp⟩
+
+theorem LitPre.trans {L : List (Nat × Val)} {a b c : Env} (h1 : LitPre L a b) (h2 : LitPre L b c) : LitPre L a c := by
+  obtain ⟨p1, rfl, hp1⟩ := h1
+  obtain ⟨p2, rfl, hp2⟩ := h2
+  refine ⟨p2 ++ p1, by simp, ?_⟩
+  intro p hp
+  rcases List.mem_append.mp hp with hp | hp
+  · exact hp2 p hp
+  · exact hp1 p hp
+
+/-- ids in `L` name one literal -/
+def LitFn (L : List (Nat × Val)) : Prop := ∀ id x y, (id, x) ∈ L → (id, y) ∈ L → x = y
+
+theorem LClosed.mono {τ : Asg} {env : Env} {vs vs' : List VarId} {L : List (Nat × Val)}
+    (h : LClosed τ env vs L) (h1 : ∀ v ∈ vs', v ∈ vs) : LClosed τ env vs' L :=
+  ⟨fun v hv => h.1 v (h1 v hv), h.2⟩
+
+theorem LClosed.ext {τ : Asg} {env env' : Env} {vs : List VarId} {L : List (Nat × Val)} (hfn : LitFn L)
+    (h : LClosed τ env vs L) (hx : LitPre L env env') : LClosed τ env' vs L := by
+  obtain ⟨pre, rfl, hpre⟩ := hx
+  constructor
+  · intro v hv
+    obtain ⟨x, hx, hτ⟩ := h.1 v hv
+    refine ⟨x, ?_, hτ⟩
+    rw [List.lookup_append]
+    have : List.lookup (Key.var v) pre = none := by
+      rw [List.lookup_eq_none_iff]
+      intro p hp
+      obtain ⟨id, hid, _⟩ := hpre p hp
+      simp [hid]
+    rw [this]; exact hx
+  · intro il hil
+    rw [List.lookup_append]
+    cases hl : List.lookup (Key.lit il.1) pre with
+    | none => simpa using h.2 il hil
+    | some y =>
+      left
+      obtain ⟨id, hid, hm⟩ := hpre _ (lookup_mem' hl)
+      simp only at hid hm
+      cases hid
+      rw [hfn il.1 y il.2 hm hil]; rfl
+
+theorem lclosed_term (w : World) (τ : Asg) (L : List (Nat × Val)) (t : Term) :
+    ∀ cp env rs y, t.noFlat = true → (∀ x ∈ t.lits, x ∈ L) → LClosed τ env t.vars L →
+      evalTerm w cp t env = .ok rs → tval w τ t = .ok y →
+      ∃ env' fl, rs = [(env', y, fl)] ∧ LitPre L env env' ∧ (cp = false → fl = true) ∧
+        (t.isChain = true → cp = true → fl = truthy y) := by
+  induction t with
+  | var v =>
+    intro cp env rs y _ _ hc h htv
+    obtain ⟨x, hx, hτ⟩ := hc.1 v (by simp [Term.vars])
+    simp only [tval, hτ] at htv; cases htv
+    simp only [evalTerm, evalVarAt, hx] at h; cases h
+    refine ⟨env, _, rfl, LitPre.refl _ _, ?_, ?_⟩
+    · intro hcp; subst hcp; rfl
+    · intro hch; simp [Term.isChain] at hch
+  | lit id x =>
+    intro cp env rs y _ hL hc h htv
+    simp only [tval] at htv; cases htv
+    have hm : (id, x) ∈ L := hL _ (by simp [Term.lits])
+    rcases hc.2 (id, x) hm with hx | hx
+    · simp only at hx
+      simp only [evalTerm, hx] at h; cases h
+      refine ⟨env, _, rfl, LitPre.refl _ _, ?_, ?_⟩
+      · intro hcp; subst hcp; rfl
+      · intro hch; simp [Term.isChain] at hch
+    · simp only at hx
+      simp only [evalTerm, hx] at h; cases h
+      refine ⟨(Key.lit id, x) :: env, true, rfl, ⟨[(Key.lit id, x)], rfl, ?_⟩, fun _ => rfl, ?_⟩
+      · intro p hp; simp only [List.mem_singleton] at hp; subst hp; exact ⟨id, rfl, hm⟩
+      · intro hch; simp [Term.isChain] at hch
+  | attr t n ih =>
+    intro cp env rs y hnf hL hc h htv
+    rw [evalTerm_attr] at h
+    obtain ⟨rs0, h0, h⟩ := bind_ok h
+    obtain ⟨g, hg, rfl⟩ := mapVal_ok h
+    simp only [tval] at htv
+    obtain ⟨x0, hx0, hx⟩ := bind_ok htv
+    obtain ⟨env', fl, rfl, hpre, _, _⟩ := ih false env rs0 x0 hnf hL hc h0 hx0
+    have := hg _ (List.mem_singleton.mpr rfl)
+    simp only at this
+    rw [hx] at this; cases this
+    refine ⟨env', _, rfl, hpre, ?_, ?_⟩
+    · intro hcp; subst hcp; rfl
+    · intro _ hcp; subst hcp; rfl
+  | index t i ih =>
+    intro cp env rs y hnf hL hc h htv
+    rw [evalTerm_index] at h
+    obtain ⟨rs0, h0, h⟩ := bind_ok h
+    obtain ⟨g, hg, rfl⟩ := mapVal_ok h
+    simp only [tval] at htv
+    obtain ⟨x0, hx0, hx⟩ := bind_ok htv
+    obtain ⟨env', fl, rfl, hpre, _, _⟩ := ih false env rs0 x0 hnf hL hc h0 hx0
+    have := hg _ (List.mem_singleton.mpr rfl)
+    simp only at this
+    rw [hx] at this; cases this
+    refine ⟨env', _, rfl, hpre, ?_, ?_⟩
+    · intro hcp; subst hcp; rfl
+    · intro _ hcp; subst hcp; rfl
+  | flatten t _ => intro cp env rs y hnf; simp [Term.noFlat] at hnf
+
+theorem lclosed_cmpCore {w : World} {τ : Asg} {L : List (Nat × Val)} {f s : Term}
+    {cmb : Val → Val → Except Err Bool} {env : Env} {rs : List (Env × Bool)} {a b : Val} {c : Bool}
+    (hfn : LitFn L) (hnf : f.noFlat = true) (hns : s.noFlat = true)
+    (hLf : ∀ x ∈ f.lits, x ∈ L) (hLs : ∀ x ∈ s.lits, x ∈ L)
+    (hcf : LClosed τ env f.vars L) (hcs : LClosed τ env s.vars L)
+    (h : evalCmpCore w f s cmb env = .ok rs)
+    (ha : tval w τ f = .ok a) (hb : tval w τ s = .ok b) (hc : cmb a b = .ok c) :
+    ∃ env', rs = [(env', c)] ∧ LitPre L env env' := by
+  obtain ⟨r1, g, h1, rfl, hg⟩ := evalCmpCore_inv h
+  obtain ⟨env1, fl1, rfl, hp1, hfl1, _⟩ := lclosed_term w τ L f false env r1 a hnf hLf hcf h1 ha
+  have hfl1 := hfl1 rfl; subst hfl1
+  simp only [List.filter_cons, if_true, List.filter_nil, List.flatMap_cons, List.flatMap_nil, List.append_nil] at hg ⊢
+  obtain ⟨r2, c', h2, hc', hgp⟩ := hg _ (List.mem_singleton.mpr rfl)
+  obtain ⟨env2, fl2, rfl, hp2, hfl2, _⟩ :=
+    lclosed_term w τ L s false env1 r2 b hns hLs (hcs.ext hfn hp1) h2 hb
+  have hfl2 := hfl2 rfl; subst hfl2
+  simp only [List.filter_cons, if_true, List.filter_nil, List.map_cons, List.map_nil] at hgp hc'
+  have := hc' _ (List.mem_singleton.mpr rfl)
+  simp only at this
+  rw [hc] at this; cases this
+  exact ⟨env2, hgp, hp1.trans hp2⟩
+
+theorem lclosed_cmp {w : World} {τ : Asg} {L : List (Nat × Val)} {l r : Term}
+    {op : Val → Val → Except Err Bool} {env : Env} {rs : List (Env × Bool)} {a b : Val} {c : Bool}
+    (hfn : LitFn L) (hnl : l.noFlat = true) (hnr : r.noFlat = true)
+    (hL : ∀ x ∈ l.lits ++ r.lits, x ∈ L)
+    (hcl : LClosed τ env (l.vars ++ r.vars) L)
+    (h : evalCmp w l r op env = .ok rs)
+    (ha : tval w τ l = .ok a) (hb : tval w τ r = .ok b) (hc : op a b = .ok c) :
+    ∃ env', rs = [(env', c)] ∧ LitPre L env env' := by
+  have h1 : LClosed τ env l.vars L := hcl.mono (subset_append_left _ _)
+  have h2 : LClosed τ env r.vars L := hcl.mono (subset_append_right _ _)
+  have hL1 : ∀ x ∈ l.lits, x ∈ L := fun x hx => hL x (List.mem_append_left _ hx)
+  have hL2 : ∀ x ∈ r.lits, x ∈ L := fun x hx => hL x (List.mem_append_right _ hx)
+  rcases evalCmp_eq w l r op env with he | he
+  · rw [he] at h; exact lclosed_cmpCore hfn hnl hnr hL1 hL2 h1 h2 h ha hb hc
+  · rw [he] at h; exact lclosed_cmpCore hfn hnr hnl hL2 hL1 h2 h1 h hb ha hc
+
+/-- **closed evaluation** (variables bound, literal nodes bound to their literal or unbound): ONE result, flagged with
+the first-order truth value; its environment adds literal bindings only -/
+theorem lclosed_eval (w : World) (τ : Asg) (L : List (Nat × Val)) (hfn : LitFn L) (e : Expr) :
+    e.Fc = true → (∀ x ∈ e.lits, x ∈ L) → ∀ env rs b, LClosed τ env e.vars L → eval w e env = .ok rs →
+      satE w e τ = .ok b → ∃ env', rs = [(env', b)] ∧ LitPre L env env' := by
+  induction e with
+  | cmp op l r =>
+    intro hF hL env rs b hc h hs
+    simp only [Expr.Fc, Bool.and_eq_true] at hF
+    simp only [eval] at h
+    simp only [satE] at hs
+    obtain ⟨a, b', ha, hb, hc'⟩ := satCmp_inv hF.1 hF.2 hs
+    exact lclosed_cmp hfn hF.1 hF.2 hL hc h ha hb hc'
+  | contains c i =>
+    intro hF hL env rs b hc h hs
+    simp only [Expr.Fc, Bool.and_eq_true] at hF
+    simp only [eval] at h
+    simp only [satE] at hs
+    obtain ⟨a, b', ha, hb, hc'⟩ := satCmp_inv hF.1 hF.2 hs
+    exact lclosed_cmp hfn hF.1 hF.2 hL hc h ha hb hc'
+  | truth t =>
+    intro hF hL env rs b hc h hs
+    simp only [Expr.Fc] at hF
+    obtain ⟨rs0, h0, rfl⟩ := eval_truth_inv h
+    simp only [satE] at hs
+    obtain ⟨xs, hxs, hb⟩ := bind_ok hs
+    obtain ⟨x, hx, rfl⟩ := tvals_ok_noFlat (Term.isChain_noFlat hF) hxs
+    have hb := pure_ok hb
+    rw [any_single] at hb
+    obtain ⟨env', fl, rfl, hpre, _, hfl⟩ := lclosed_term w τ L t true env rs0 x (Term.isChain_noFlat hF) hL hc h0 hx
+    refine ⟨env', ?_, hpre⟩
+    simp only [List.map_cons, List.map_nil]
+    rw [hfl hF rfl, hb]
+  | hasType t c =>
+    intro hF hL env rs b hc h hs
+    simp only [Expr.Fc] at hF
+    obtain ⟨rs0, h0, rfl⟩ := eval_hasType_inv h
+    simp only [satE] at hs
+    obtain ⟨xs, hxs, hb⟩ := bind_ok hs
+    obtain ⟨x, hx, rfl⟩ := tvals_ok_noFlat hF hxs
+    have hb := pure_ok hb
+    rw [any_single] at hb
+    obtain ⟨env', fl, rfl, hpre, _, _⟩ := lclosed_term w τ L t false env rs0 x hF hL hc h0 hx
+    refine ⟨env', ?_, hpre⟩
+    simp only [List.map_cons, List.map_nil]
+    rw [hb]
+  | and l r ihl ihr =>
+    intro hF hL env rs b hc h hs
+    simp only [Expr.Fc, Bool.and_eq_true] at hF
+    obtain ⟨ls, g, h0, rfl, hg⟩ := eval_and_inv h
+    simp only [satE] at hs
+    obtain ⟨bl, hbl, hs⟩ := bind_ok hs
+    obtain ⟨br, hbr, hs⟩ := bind_ok hs
+    have hb := pure_ok hs
+    have hcl : LClosed τ env l.vars L := hc.mono (subset_append_left _ _)
+    have hcr : LClosed τ env r.vars L := hc.mono (subset_append_right _ _)
+    obtain ⟨env1, rfl, hp1⟩ := ihl hF.1 (fun x hx => hL x (List.mem_append_left _ hx)) env ls bl hcl h0 hbl
+    simp only [List.flatMap_cons, List.flatMap_nil, List.append_nil]
+    have hg1 := hg _ (List.mem_singleton.mpr rfl)
+    cases bl with
+    | true =>
+      obtain ⟨env2, h2, hp2⟩ := ihr hF.2 (fun x hx => hL x (List.mem_append_right _ hx)) env1 _ br
+        (hcr.ext hfn hp1) (hg1.1 rfl) hbr
+      exact ⟨env2, by rw [h2, ← hb]; rfl, hp1.trans hp2⟩
+    | false => exact ⟨env1, by rw [hg1.2 rfl, ← hb]; rfl, hp1⟩
+  | elseIf l r ihl ihr =>
+    intro hF hL env rs b hc h hs
+    simp only [Expr.Fc, Bool.and_eq_true] at hF
+    obtain ⟨ls, g, h0, rfl, hg⟩ := eval_elseIf_inv h
+    simp only [satE] at hs
+    obtain ⟨bl, hbl, hs⟩ := bind_ok hs
+    obtain ⟨br, hbr, hs⟩ := bind_ok hs
+    have hb := pure_ok hs
+    have hcl : LClosed τ env l.vars L := hc.mono (subset_append_left _ _)
+    have hcr : LClosed τ env r.vars L := hc.mono (subset_append_right _ _)
+    obtain ⟨env1, rfl, hp1⟩ := ihl hF.1 (fun x hx => hL x (List.mem_append_left _ hx)) env ls bl hcl h0 hbl
+    simp only [List.flatMap_cons, List.flatMap_nil, List.append_nil]
+    have hg1 := hg _ (List.mem_singleton.mpr rfl)
+    cases bl with
+    | false =>
+      obtain ⟨env2, h2, hp2⟩ := ihr hF.2 (fun x hx => hL x (List.mem_append_right _ hx)) env1 _ br
+        (hcr.ext hfn hp1) (hg1.2 rfl) hbr
+      exact ⟨env2, by rw [h2, ← hb]; rfl, hp1.trans hp2⟩
+    | true => exact ⟨env1, by rw [hg1.1 rfl, ← hb]; rfl, hp1⟩
+  | not e ih =>
+    intro hF hL env rs b hc h hs
+    simp only [Expr.Fc] at hF
+    obtain ⟨rs0, h0, rfl⟩ := eval_not_inv h
+    simp only [satE] at hs
+    obtain ⟨b0, hb0, hs⟩ := bind_ok hs
+    have hb := pure_ok hs
+    obtain ⟨env1, rfl, hp1⟩ := ih hF hL env rs0 b0 hc h0 hb0
+    refine ⟨env1, ?_, hp1⟩
+    simp only [List.map_cons, List.map_nil]
+    rw [hb]
+  | union l r _ _ => intro hF; simp [Expr.Fc] at hF
+  | exists_ v e _ => intro hF; simp [Expr.Fc] at hF
+  | forAll v e _ => intro hF; simp [Expr.Fc] at hF
+
 /-! ## Q5. `Exists` -/
 
 /-- an environment is functional: two bindings of one key carry the same value (`ForAll` re-appends the candidate's
@@ -1095,10 +1345,11 @@ theorem mem_restrict {env : Env} {ids : List Key} {b : Key × Val} :
     b ∈ restrict env ids ↔ b ∈ env ∧ b.1 ∈ ids := by
   simp [restrict, List.mem_filter]
 
-/-- **ForAll**: if every TRUE result cell of `φ` binds every node of `φ` and the universal domain is not empty, the
+/-- **ForAll**: if every TRUE result cell of `φ` binds every VARIABLE of `φ` (literal nodes may stay unbound: they are
+re-read fresh) and the universal domain is not empty, the
 results of `forAll q φ` are sound and complete for `∀ q ∈ dom q, φ` -/
 theorem forAll_qinv (w : World) (hnd : ∀ v, (w.dom v).Nodup) (q : VarId) (φ : Expr) (hF : φ.Fc = true)
-    (hln : LitNodup φ) (hall : ∀ k ∈ φ.nodes, k ∈ Expr.bK true φ)
+    (hln : LitNodup φ) (hall : ∀ v ∈ φ.vars, Key.var v ∈ Expr.bK true φ)
     (env : Env) (out : List (Env × Bool)) (hk : EnvFn env)
     (hq : env.lookup (.var q) = none) (hlf : LitFresh φ.nodes env)
     (h : eval w (.forAll q φ) env = .ok out) :
@@ -1106,6 +1357,7 @@ theorem forAll_qinv (w : World) (hnd : ∀ v, (w.dom v).Nodup) (q : VarId) (φ :
   obtain ⟨x0, xs, c0, final, hdom, h0, hfold, rfl⟩ := eval_forAll_inv hq h
   obtain ⟨hfin1, hfin2⟩ := foldlM_filter_ok _ _ _ _ hfold
   have hfv : (Expr.forAll q φ).fvars = φ.vars.filter (· != q) := by simp only [Expr.fvars, Expr.fvars_Fc hF]
+  have hlfn : LitFn φ.lits := fun id x y hx hy => fst_nodup_fn (by rw [Expr.lits_ids]; exact hln) hx hy
   have hx0d : x0 ∈ w.dom q := by rw [hdom]; exact List.mem_cons_self
   have hxsd : ∀ x ∈ xs, x ∈ w.dom q := fun x hx => by rw [hdom]; exact List.mem_cons_of_mem _ hx
   let others := φ.nodes.filter (· != Key.var q)
@@ -1119,7 +1371,7 @@ theorem forAll_qinv (w : World) (hnd : ∀ v, (w.dom v).Nodup) (q : VarId) (φ :
   have hcell : ∀ c ∈ c0, c.2 = true →
       (∃ pre0, c.1 = pre0 ++ env0 ∧ (∀ b ∈ pre0, (∀ v, b.1 = Key.var v → v ∈ φ.vars ∧ b.2 ∈ w.dom v) ∧
           (∀ id, b.1 = Key.lit id → (id, b.2) ∈ φ.lits))) ∧
-      EnvFn c.1 ∧ (∀ k ∈ φ.nodes, k ≠ Key.var q → ∃ y, (k, y) ∈ restrict c.1 others) := by
+      EnvFn c.1 ∧ (∀ v ∈ φ.vars, v ≠ q → ∃ y, (Key.var v, y) ∈ restrict c.1 others) := by
     intro c hc hct
     obtain ⟨pre0, hpe, hprop, _⟩ := eval_ext w φ hF env0 c0 h0 c hc
     obtain ⟨pre1, hpe1, hlit⟩ := eval_lit w φ hF env0 c0 h0 c hc
@@ -1127,9 +1379,9 @@ theorem forAll_qinv (w : World) (hnd : ∀ v, (w.dom v).Nodup) (q : VarId) (φ :
     subst this
     refine ⟨⟨pre1, hpe, fun b hb => ⟨fun v hv => ⟨Expr.mem_nodes_var.mp (hv ▸ (hprop b hb).1), (hprop b hb).2 v hv⟩,
       hlit b hb⟩⟩, hk0.of_fext (eval_fext w φ hF env0 c0 h0 c hc), ?_⟩
-    intro k hkn hkq
-    obtain ⟨y, hy⟩ := isSome_mem (bK_sound w φ hF env0 c0 h0 c hc true hct k (hall k hkn))
-    exact ⟨y, mem_restrict.mpr ⟨hy, List.mem_filter.mpr ⟨hkn, by simp [hkq]⟩⟩⟩
+    intro v hv hvq
+    obtain ⟨y, hy⟩ := isSome_mem (bK_sound w φ hF env0 c0 h0 c hc true hct _ (hall v hv))
+    exact ⟨y, mem_restrict.mpr ⟨hy, List.mem_filter.mpr ⟨Expr.mem_nodes_var.mpr hv, by simp [hvq]⟩⟩⟩
   -- members of a candidate and of `env` are members of the cell
   have hsub : ∀ c ∈ c0, c.2 = true → ∀ b, (b ∈ restrict c.1 others ∨ b ∈ env) → b ∈ c.1 := by
     intro c hc hct b hb
@@ -1140,7 +1392,7 @@ theorem forAll_qinv (w : World) (hnd : ∀ v, (w.dom v).Nodup) (q : VarId) (φ :
   -- closedness of the re-check environment
   have hclosed : ∀ c ∈ c0, c.2 = true → ∀ (τ : Asg) (x : Val),
       (∀ v y, (Key.var v, y) ∈ restrict c.1 others → τ.lookup v = some y) →
-      Closed ((q, x) :: τ) (merge (restrict c.1 others) ((Key.var q, x) :: env)) φ.vars φ.lits := by
+      LClosed ((q, x) :: τ) (merge (restrict c.1 others) ((Key.var q, x) :: env)) φ.vars φ.lits := by
     intro c hc hct τ x hτ
     obtain ⟨⟨pre0, hpe, hpre⟩, hnd1, hbound⟩ := hcell c hc hct
     have hlk : ∀ k y, k ≠ Key.var q → (k, y) ∈ restrict c.1 others →
@@ -1160,23 +1412,28 @@ theorem forAll_qinv (w : World) (hnd : ∀ v, (w.dom v).Nodup) (q : VarId) (φ :
       · subst hvq
         exact ⟨x, by show List.lookup (Key.var v) ((Key.var v, x) :: _) = some x; simp, lookup_cons_self⟩
       · have hkq : Key.var v ≠ Key.var q := by intro h; cases h; exact hvq rfl
-        obtain ⟨y, hy⟩ := hbound (.var v) (Expr.mem_nodes_var.mpr hv) hkq
+        obtain ⟨y, hy⟩ := hbound v hv hvq
         exact ⟨y, hlk _ y hkq hy, by rw [lookup_cons_ne hvq]; exact hτ v y hy⟩
     · intro il hil
       obtain ⟨id, lx⟩ := il
       have hkq : Key.lit id ≠ Key.var q := by intro h; cases h
-      obtain ⟨y, hy⟩ := hbound (.lit id) (mem_lits_nodes hil) hkq
-      have hyc : (Key.lit id, y) ∈ c.1 := (mem_restrict.mp hy).1
-      rw [hpe] at hyc
-      have hyl : (id, y) ∈ φ.lits := by
-        rcases List.mem_append.mp hyc with hyc | hyc
-        · exact (hpre _ hyc).2 id rfl
-        · rcases List.mem_cons.mp hyc with hyc | hyc
-          · cases hyc
-          · exact absurd (mem_keys hyc) (not_mem_keys_of_lookup_none (hlf id (mem_lits_nodes hil)))
-      have : y = lx := fst_nodup_fn (by rw [Expr.lits_ids]; exact hln) hyl hil
-      subst this
-      exact hlk _ y hkq hy
+      show List.lookup (Key.lit id) ((Key.var q, x) :: (env ++ restrict c.1 others)) = some lx ∨
+        List.lookup (Key.lit id) ((Key.var q, x) :: (env ++ restrict c.1 others)) = none
+      rw [lookup_cons_key_ne hkq]
+      cases hl : List.lookup (Key.lit id) (env ++ restrict c.1 others) with
+      | none => right; rfl
+      | some y =>
+        left
+        have hmem := lookup_mem' hl
+        have hyc : (Key.lit id, y) ∈ c.1 := hsub c hc hct _ ((List.mem_append.mp hmem).symm)
+        rw [hpe] at hyc
+        have hyl : (id, y) ∈ φ.lits := by
+          rcases List.mem_append.mp hyc with hyc | hyc
+          · exact (hpre _ hyc).2 id rfl
+          · rcases List.mem_cons.mp hyc with hyc | hyc
+            · cases hyc
+            · exact absurd (mem_keys hyc) (not_mem_keys_of_lookup_none (hlf id (mem_lits_nodes hil)))
+        rw [fst_nodup_fn (by rw [Expr.lits_ids]; exact hln) hyl hil]
   -- a candidate agrees with `τ` iff its cell agrees with `(q, x0) :: τ`
   have hagcell : ∀ c ∈ c0, c.2 = true → ∀ τ : Asg, agreesB τ env = true →
       (∀ v y, (Key.var v, y) ∈ restrict c.1 others → τ.lookup v = some y) →
@@ -1266,8 +1523,8 @@ theorem forAll_qinv (w : World) (hnd : ∀ v, (w.dom v).Nodup) (q : VarId) (φ :
     · have hF1 := hchk _ (hrest x hx)
       obtain ⟨rs, hrs, hfl⟩ := bind_ok hF1
       have hfl := pure_ok hfl
-      have := closed_eval w _ φ hF _ rs (g x) (hclosed c hc hct τ x hτ) hrs (hg x (hxsd x hx))
-      subst this
+      obtain ⟨env', rfl, _⟩ := lclosed_eval w _ φ.lits hlfn φ hF (fun _ h => h) _ rs (g x)
+        (hclosed c hc hct τ x hτ) hrs (hg x (hxsd x hx))
       exact hfl
   · -- completeness
     intro τ hcov hag hs
@@ -1301,13 +1558,15 @@ theorem forAll_qinv (w : World) (hnd : ∀ v, (w.dom v).Nodup) (q : VarId) (φ :
       obtain ⟨rs, hrs, hfl⟩ := bind_ok hFb
       have hfl := pure_ok hfl
       have hsx : satE w φ ((q, x) :: τ) = .ok true := by rw [hg x (hxsd x hx), hgall x (hxsd x hx)]
-      have := closed_eval w _ φ hF _ rs true (hclosed a ham hav τ x hτ) hrs hsx
-      subst this
+      obtain ⟨env', rfl, _⟩ := lclosed_eval w _ φ.lits hlfn φ hF (fun _ h => h) _ rs true
+        (hclosed a ham hav τ x hτ) hrs hsx
       exact hfl.symm
     refine ⟨(merge env (restrict a.1 others), true), List.mem_map.mpr ⟨_, hsolf, rfl⟩, rfl, [], by simp, ?_⟩
     show agreesB τ (restrict a.1 others ++ env) = true
     rw [agreesB_append, hag, Bool.and_true, agreesB_iff]
     exact hτ
+
+
 
 
 /-! ## Q7. The chain `and l₁ (and l₂ (… Q))` -/
@@ -2158,5 +2417,44 @@ theorem sound_complete_Qt (w : World) (sel : List Term) (c : SExpr)
     (fun rs hrs => (qt_qinv2 w hnd (build c) [] [] hQ hlit [] rs (fun _ _ _ h => by cases h) (by simp) (by simp)
       (fun _ _ => rfl) hrs).toQInv)
     hsel hms hsq hnd hne h1 h2
+
+/-! ## Q10. An `exists` inside the fragment never raises by itself -/
+
+theorem existsFilter_total (w : World) (q : VarId) : ∀ (rs : List (Env × Bool)) (seen : List Val),
+    (∀ p ∈ rs, (p.1.lookup (.var q)).isSome = true) → ∃ out, existsFilter w q rs seen = .ok out := by
+  intro rs
+  induction rs with
+  | nil => intro seen _; exact ⟨[], rfl⟩
+  | cons a rest ih =>
+    intro seen hb
+    obtain ⟨env1, t⟩ := a
+    have h1 := hb (env1, t) List.mem_cons_self
+    simp only at h1
+    cases hl : env1.lookup (.var q) with
+    | none => rw [hl] at h1; cases h1
+    | some x =>
+      simp only [existsFilter, hl]
+      split
+      · obtain ⟨out, ho⟩ := ih (seen ++ [x]) (fun p hp => hb p (List.mem_cons_of_mem _ hp))
+        exact ⟨(env1, true) :: out, by rw [ho]; rfl⟩
+      · exact ih seen (fun p hp => hb p (List.mem_cons_of_mem _ hp))
+
+/-- under side condition (E1) an `exists` never raises by itself (no `KeyError`, F-C01-7): an error of
+`exists_ q φ` is an error of evaluating `φ` -/
+theorem exists_error_from_body (w : World) (q : VarId) (φ : Expr) (env : Env) (hF : φ.Fc = true)
+    (hbq : Key.var q ∈ Expr.bK true φ ∧ Key.var q ∈ Expr.bK false φ) (err : Err)
+    (h : eval w (.exists_ q φ) env = .error err) : eval w φ env = .error err := by
+  simp only [eval] at h
+  cases h0 : eval w φ env with
+  | error e => rw [h0] at h; exact h
+  | ok rs0 =>
+    rw [h0] at h
+    obtain ⟨out, ho⟩ := existsFilter_total w q rs0 [] (by
+      intro p hp
+      cases hp2 : p.2 with
+      | true => exact bK_sound w φ hF env rs0 h0 p hp true hp2 _ hbq.1
+      | false => exact bK_sound w φ hF env rs0 h0 p hp false hp2 _ hbq.2)
+    have : (existsFilter w q rs0 [] : Except Err _) = .error err := h
+    rw [ho] at this; cases this
 
 end KrroodVerif.Eql
